@@ -247,7 +247,8 @@ def const_int(e, value):
 
 
 @rule('C05.R2', 'FileStorage abort undoes the vote: truncate to the committed '
-      'end, then drop reader buffers, reset, clear staging', props=['C02', 'C04'],
+      'end, then drop reader buffers, reset, clear staging',
+      props=['C01', 'C02', 'C04'],
       min_instances=1)
 def r2(R):
     cls = R.prog.cls(FS)
@@ -311,6 +312,15 @@ def r2(R):
         ev = events(node, lab, held, done)
         held = step_held(F, node, held, lab)
         seen_ops.update(ev)
+        if lab in ('e', 'eb') and matched is True and \
+                'truncate' not in done and node.kind not in (
+                    'acq', 'rel', 'withenter', 'withexit') and not any(
+                    op.kind == 'call' and path_is(
+                        op.path, ('self', '_file', 'truncate'))
+                    for op in F.ops(node)):
+            # a step of the abort fails while the voted bytes are still in
+            # the file
+            done = frozenset(done | {'<failed before the truncate>'})
         if ev:
             done = frozenset(done | ev)
         # the truncate must come before the position it uses is reset
@@ -318,6 +328,15 @@ def r2(R):
 
     def at(node, st):
         matched, done, held = st
+        if node.id == g.exit_raise and matched is True and \
+                '<failed before the truncate>' in done and \
+                'truncate' not in done:
+            return Violation(
+                'tpc_abort can fail in a step that precedes the truncate '
+                '(for instance the removal of blob files): the voted, '
+                'checkpoint-flagged transaction stays in the file beyond '
+                'the committed end -- a later pack copies and indexes it, a '
+                'reopen truncates everything committed after it')
         if node.id == g.exit_return and matched is True:
             missing = [n for n in NEED if n not in done]
             if missing:
